@@ -8,6 +8,7 @@ from mc.enumerate import bars, multisets_upto, distinct_permutations
 from oracles import landscape as OL
 from oracles import plfun as P
 
+CALL_VARIANTS = True   # constructions are repeated with the diagram in another memory layout / a reused buffer (mc/ctx.py)
 PROPERTY = "C03"
 RULE = (
     "medium diagrams of 6..10 (thorough ..16) bars (Weyl family, lattice-rounded and generic) in 4 arrangements; ALL multisets of <= n bars with integer endpoints in {0..G}, b<d (nested, overlapping, disjoint, "
@@ -60,10 +61,10 @@ def build(ctx, dgms, hom_deg, mode="eager"):
     tr = trace_list()
     if tr is not None:
         del tr[:]
-    ctx.trans()
     if mode == "eager":
-        pl = PersLandscapeExact(dgms=dgms, hom_deg=hom_deg)
+        pl = ctx.call(PersLandscapeExact, dgms=dgms, hom_deg=hom_deg)
     else:
+        ctx.trans()
         pl = PersLandscapeExact(dgms=dgms, hom_deg=hom_deg, compute=False)
         with contextlib.redirect_stdout(io.StringIO()):
             if mode == "verbose":
